@@ -753,7 +753,8 @@ def inline_unknown(trees_by_relpath, unknown, report):
         by_rel = {}
         for rel, tree in trees_by_relpath.items():
             for q, node, cls in functions_of(tree):
-                if (rel, q) in unknown and node.name.startswith("_") and not (node.name.startswith("__") and node.name.endswith("__")):
+                # unknown = not in the reference: a new function is nobody's API yet, whatever its spelling
+                if (rel, q) in unknown and not (node.name.startswith("__") and node.name.endswith("__")):
                     h = Helper(rel, q, node, cls)
                     calls, other = references(trees_by_relpath.values(), node.name, method=cls is not None)
                     if other:
